@@ -161,6 +161,8 @@ std::vector<Probe> build_probes(World& w)
         add("track::set_sample_count(max)", [t](World& w) { w.tracks[t].set_sample_count(ULLONG_MAX); (void)w.tracks[t].snapshot(); });
         add("track::set_sample_count(2^63)", [t](World& w) { w.tracks[t].set_sample_count(1ull << 63); (void)w.tracks[t].snapshot(); });
         add("track::set_sample_rate(extreme)", [t](World& w) { w.tracks[t].set_sample_rate(1e15); (void)w.tracks[t].snapshot(); w.tracks[t].set_sample_rate(-44100.0); (void)w.tracks[t].snapshot(); });
+        for (double r : {0.5, 1.0, 209.0, 210.0, -0.5})
+            add("track::set_sample_rate(tiny)", [t, r](World& w) { w.tracks[t].set_sample_count(88200ull); w.tracks[t].set_waveform(std::vector<dj::waveform_entry>(5)); w.tracks[t].set_sample_rate(r); (void)w.tracks[t].snapshot(); w.tracks[t].set_sample_count(99ull); w.tracks[t].set_waveform(std::vector<dj::waveform_entry>(5)); (void)w.tracks[t].snapshot(); });
         add("track::set_sample_rate(then waveform)", [t](World& w) { w.tracks[t].set_sample_rate(std::nullopt); w.tracks[t].set_waveform(std::vector<dj::waveform_entry>(10)); (void)w.tracks[t].snapshot(); });
         add("track::set_bpm(extreme)", [t](World& w) { w.tracks[t].set_bpm(1e15); (void)w.tracks[t].bpm(); w.tracks[t].set_bpm(-1.0); (void)w.tracks[t].snapshot(); });
         add("track::set_average_loudness(extreme)", [t](World& w) { w.tracks[t].set_average_loudness(1e15); w.tracks[t].set_average_loudness(-1.0); (void)w.tracks[t].snapshot(); });
